@@ -56,7 +56,9 @@ func (s *Sess) PutRaw(b, k string, hdr [][2]string, body []byte, failAfter int) 
 	if failAfter >= 0 {
 		rq.Reader = &failReader{data: body, k: failAfter}
 	} else {
-		rq.Reader = &fragReader{data: append([]byte{}, body...)}
+		// as net/http does for a body read off a connection, every other request sees the end of
+		// the body together with its last bytes rather than in a separate read
+		rq.Reader = &fragReader{data: append([]byte{}, body...), eofWith: s.nops%2 == 1}
 	}
 	r := do(s.h, rq)
 	s.emitOp("rput", []string{hs(b), hs(k), hdrArg(hdr), hx(body), strconv.Itoa(failAfter), boolField(!s.opts.NoIntegrity), s.metaLimitArg()}, obsT{r: r})
@@ -68,7 +70,9 @@ func (s *Sess) PartRaw(b, k, uid, pn string, hdr [][2]string, body []byte, failA
 	if failAfter >= 0 {
 		rq.Reader = &failReader{data: body, k: failAfter}
 	} else {
-		rq.Reader = &fragReader{data: append([]byte{}, body...)}
+		// as net/http does for a body read off a connection, every other request sees the end of
+		// the body together with its last bytes rather than in a separate read
+		rq.Reader = &fragReader{data: append([]byte{}, body...), eofWith: s.nops%2 == 1}
 	}
 	r := do(s.h, rq)
 	s.emitOp("rpart", []string{hs(b), hs(k), hs(uid), hs(pn), hdrArg(hdr), hx(body), strconv.Itoa(failAfter), boolField(!s.opts.NoIntegrity)}, obsT{r: r})
